@@ -29,7 +29,7 @@ CLAIMS = {
               "and maps, both modes), C05_exact_consumption_partial, C05_stream_partial (back-to-back values read back "
               "in order), C05_trailing_rejected_partial, C05_prefix_rejected_partial (from extension + exact "
               "consumption, no bijectivity needed) for every keysOk type (keyed collections included); differential run of deserialize with tails, every "
-              "truncation point, and heterogeneous streams of up to 6 values against the model."),
+              "truncation point, and heterogeneous streams of up to 6 values against the model. The workload also raises the element count of top-level sequences/strings beyond what follows (prefixes of encodings too large to build, incl. counts whose byte size wraps 2^32)."),
         technique="Lean 4 proof (prefix-extension lemma by induction over the universe; corollaries) + differential correspondence check",
         design_ref="§5 C05"),
 }
@@ -40,7 +40,7 @@ CLAIMS['C16'] = dict(
           "the universe; the same induction shows the decoder never panics); C16_zst* (zero-sized collections give "
           "the public message on any input), C16_leftover_partial, C16_truncated_block. Differential run over "
           "truncations, single-byte corruptions, 0xFFFFFFFF windows, entry swaps and random strings of every "
-          "catalogue type (incl. bson/ascii/bytes/indexmap impls) comparing (kind, message class)."),
+          "catalogue type (incl. bson/ascii/bytes/indexmap impls) comparing (kind, message class). C16_truncated_partial: every proper prefix of the encoding of any value of a keysOk type is rejected by deserialize and from_slice with InvalidData 'Unexpected length of input' and nothing else (via C16_error_stable: any other error is stable under extension of the input, every type)."),
     technique="Lean 4 proof (error-discipline predicate by induction over the universe) + differential correspondence check",
     design_ref="§5 C16")
 
@@ -68,7 +68,7 @@ CLAIMS['C04'] = dict(
           "C04_decode_injective - for every well-formed type without index collections (F6) and init hooks. "
           "Modes: C04_strict_accept_implies_lax (lax accepts whatever strict accepts, same value, every type) and "
           "C04_mode_irrelevant_without_order (on types without a hash/ordered set or map the two decoders are the "
-          "same function), so the inputs lax mode adds can only involve such a collection."),
+          "same function), so the inputs lax mode adds can only involve such a collection. C04_modes_differ_only_by_key_order / C04_lax_extra_inputs (every type, every byte string, any reader): strict mode answers exactly as lax mode or with the key-order rejection, so the only inputs lax mode adds are unsorted or repeated entries."),
     technique="Lean 4 proof (acceptance/rejection lemmas over the universe, kernel-decided counterexample) + differential check with re-encode oracle",
     design_ref="§5 C04")
 
@@ -84,7 +84,7 @@ CLAIMS['C03'] = dict(
           "Vec<u8>/[u8]/Box/Cow/Rc/String/str equals the element loop and VecDeque/LinkedList/Vec<i8> of the same "
           "bytes. C03_hashSet_order_irrelevant / C03_hashMap_order_irrelevant / C03_hashSet_eq_btreeSet: the bytes of "
           "a hash collection do not depend on iteration order (sort of distinct keys is unique: sa_unique, from the "
-          "total-order laws of Val.cmp)."),
+          "total-order laws of Val.cmp). General statement, whole universe (C03_canonical / C03_canonical_bytes): two representations related by Eqv - same members of every hash set / hash map in any iteration order, any ring-buffer split of every deque, anything in skipped fields, at any nesting depth - serialize to identical bytes or are refused for the same reason; C03_eqv_refl (Eqv is inhabited exactly where the typing is)."),
     technique="Lean 4 proof (wrapper/fast-path/deque lemmas via the spec refinement) + differential check over representation pairs",
     design_ref="§5 C03")
 
@@ -124,7 +124,7 @@ CLAIMS['C09'] = dict(
           "(pigeonhole on the duplicate-free stack of defined declarations: |definitions|+1 levels suffice). "
           "Partial: specMax is an executable specification with the same cycle rule (a declaration met again on the "
           "current path is unbounded), not a semantic supremum over all values; which of several simultaneous errors "
-          "is reported is compared per case only."),
+          "is reported is compared per case only. Soundness against values, every container (C09_sound_container / C09_sound_stream, via sdec_bound): whenever a maximum is reported, no byte string that a schema-only reader walks exactly is longer, so specMax is an upper bound on what the schema describes and not only a formula; C09_sound_types: with Bnd (derived from for_type for built-in compositions by C08_builtin_bound) no value of the Rust type serializes to more bytes than the reported maximum."),
     technique="Lean 4 proof (exactness by induction on the fuelled evaluation) + differential check incl. specification verdict per case",
     design_ref="§5 C09")
 CLAIMS['C10'] = dict(
@@ -155,7 +155,7 @@ CLAIMS['C14'] = dict(
           "collection's container gets the ZSTSequence verdict: wireZero => ZeroSized by induction over the universe, "
           "then validate_flags_zst_root through the is_zero_size iff). Differential run over 28 collection types (incl. VecDeque, "
           "LinkedList, hash/btree/index sets and maps, 3 hashers) x zero-sized element shapes x claimed lengths "
-          "{0,1,2,2^32-1}, both directions, with counting reader/writer (0 read calls, 0 bytes written)."),
+          "{0,1,2,2^32-1}, both directions, with counting reader/writer (0 read calls, 0 bytes written). The agreement clause is also judged directly on the real code: the zero-sized collections that have a schema (26 types, incl. elements reaching () / PhantomData / RangeFull twice) go through for_type + validate; refused at run time implies ZSTSequence, the root is named, every value is refused."),
     technique="Lean 4 proof (refusal lemmas over an arbitrary reader) + differential check with counting reader/writer",
     design_ref="§5 C14")
 CLAIMS['C17'] = dict(
@@ -184,7 +184,7 @@ CLAIMS['C11'] = dict(
           "readers (explicit compositions, 1-byte, cyclic patterns, interrupts, a hard failure at every offset with 7 "
           "kinds, >1 MiB byte vectors in odd chunks), three reader entry points, std and no_std io; oracle: equals "
           "the slice result, failures inside the value come back unchanged, failures beyond it are invisible. "
-          "Partial: the hard-failure clauses are tied by oracle + correspondence, not yet by theorem."),
+          "Partial: the hard-failure clauses are tied by oracle + correspondence, not yet by theorem. Hard failures (scripts with a stop that is not Interrupted/UnexpectedEof; closed forms readExactLoop_stop / bulkLoopI_stop; cut-off simulation de_simB over the universe): C11_hard_failure (a failure at an offset inside the value is returned with kind and message unchanged), C11_failure_after_value (a failure the decoder never reaches is invisible and the reader stands at the end of the value), C11_failure_or_same_error, C11_failure_general."),
     technique="Lean 4 proof (loop closed forms + reader simulation by induction over the universe) + differential check with scripted readers",
     design_ref="§5 C11")
 CLAIMS['C12'] = dict(
@@ -258,7 +258,7 @@ CLAIMS['C18'] = dict(
           "Tie: ~120 (thorough ~170) generated items - positive controls and single-rule violations applied at every "
           "variant/field/attribute position - each compiled as its own crate by rustc against the borsh rlib and "
           "derive .so built from /repo; three verdicts compared per item: the statement's list, rustc, the model. "
-          "rustc's own part (typing of u8 literals, duplicate discriminants) is observed, not modelled."),
+          "rustc's own part (typing of u8 literals, duplicate discriminants) is observed, not modelled. C18_decision_enum and C18_decision: an enum (any number, order and shape of variants) and hence any item compiles exactly when it violates none of the listed rules."),
     technique="Lean 4 proof of the decision logic + per-item rustc compilation against the real macros",
     design_ref="§5 C18")
 
